@@ -200,3 +200,44 @@ Proof.
   - apply (gsp_glued nat _ _ _ _ [(0, 118%N)] 1 108%N [49%N]); auto; [repeat constructor; apply Hv|discriminate].
   - eexists. split; vm_compute; reflexivity.
 Qed.
+
+(* ------------------------------------------------------------------ *)
+(** * Distinct arguments in any order (ArgH/OrderProofs.v) *)
+Require Import Celma.ArgH.OrderProofs.
+From Coq Require Import Permutation.
+
+(** every argument used once, the uses in any two orders, both accepted: all
+    destinations (and all other run-time attributes of the arguments) end the
+    same *)
+Theorem C01_order_independent :
+  forall c ic us1 us2 s s1 s2,
+    Permutation us1 us2 -> NoDup (map use_index us1) ->
+    (forall u, In u us1 -> use_index u < length (arts s)) ->
+    fold_uses c s ic us1 = Ok s1 -> fold_uses c s ic us2 = Ok s2 ->
+    arts s1 = arts s2.
+Proof. exact order_independent. Qed.
+Print Assumptions C01_order_independent.
+
+(** ... for whole command lines, each order in any of its legal spellings *)
+Theorem C01_order_independent_lines :
+  forall c inits us1 us2 ws1 ws2 s1 s2,
+    fixed_notify c = true ->
+    Permutation us1 us2 -> NoDup (map use_index us1) ->
+    (forall u, In u us1 -> use_index u < length (args c)) -> length inits = length (args c) ->
+    spell c us1 ws1 -> spell c us2 ws2 ->
+    eval_arguments c inits [] None ws1 = Ok s1 -> eval_arguments c inits [] None ws2 = Ok s2 ->
+    map val (arts s1) = map val (arts s2).
+Proof. exact order_independent_lines. Qed.
+Print Assumptions C01_order_independent_lines.
+
+(** Non-vacuity: the example line in the order  --name=x -n5 -v  *)
+Definition ex_argv3 : list str := [[45; 45] ++ w_name ++ [61; 120]; [45; 110; 53]; [45; 118]]%N.
+Example C01_nonvacuous_order :
+  exists s1 s3, eval_arguments ex_cfg ex_inits [] None ex_argv1 = Ok s1 /\
+                eval_arguments ex_cfg ex_inits [] None ex_argv3 = Ok s3 /\
+                map val (arts s1) = map val (arts s3) /\
+                Permutation [UFlag 0; UVal 1 [53%N]; UVal 2 [120%N]] [UVal 2 [120%N]; UVal 1 [53%N]; UFlag 0].
+Proof.
+  eexists. eexists. split; [vm_compute; reflexivity|]. split; [vm_compute; reflexivity|]. split; [reflexivity|].
+  apply Permutation_rev.
+Qed.
